@@ -477,3 +477,32 @@ Section Walker.
     | Some ns => combine (sequence (init_state c) (semis (map (fun t => (t, ev t)) ns)))
     end.
 End Walker.
+
+(* ---- analyze(): what happens to the text before it is parsed ----
+   bash separates words at blanks and newlines only; the text is stripped of those (ANALYZE_STRIP), a text that is white
+   space in Python's sense only (str.isspace: form feed, no-break space, ...) is an empty command, and a text that
+   contains any other white space is not analysed at all. *)
+Definition bash_blank (c : N) : bool := mem_ch c ANALYZE_STRIP.
+Definition py_space (c : N) : bool := in_ranges c PY_SPACE.
+Fixpoint lstrip_blanks (s : str) : str := match s with c :: r => if bash_blank c then lstrip_blanks r else s | [] => [] end.
+Definition strip_blanks (s : str) : str := rev (lstrip_blanks (rev (lstrip_blanks s))).
+Definition analyze_prelude (s : str) : option str :=       (* None = ask without parsing; Some text = parse this *)
+  let c := strip_blanks s in
+  if forallb py_space c then None
+  else if existsb (fun ch => py_space ch && negb (bash_blank ch)) c then None
+  else Some c.
+
+Section AnalyzeText.
+  Variable simple : ctx -> list str -> verdict.
+  Variable astr : ctx -> str -> verdict.
+  Variable mredir : str -> str -> option verdict.
+  Variable cdres : str -> str -> str.
+  Variable injrisk : ctx -> list str -> bool.
+  Variable rulematch : ctx -> list str -> bool.
+  Variable parse : str -> option (list tree).      (* the vendored parser: None = it rejected the text (or failed) *)
+  Definition analyze_text (c : ctx) (s : str) : verdict :=
+    match analyze_prelude s with
+    | None => Ask
+    | Some text => analyze_nodes simple astr mredir cdres injrisk rulematch c (parse text)
+    end.
+End AnalyzeText.
